@@ -147,3 +147,27 @@ pub fn unhex(s: &str) -> Option<Vec<u8>> {
         .map(|i| u8::from_str_radix(&s[2 * i..2 * i + 2], 16).ok())
         .collect()
 }
+
+
+/// hex of a message; a long message made of one repeated byte is written as "fill:<byte>:<length>"
+/// so that plans with multi-megabyte messages stay small
+pub fn msg_hex(m: &[u8]) -> String {
+    if m.len() > 4096 && m.iter().all(|&b| b == m[0]) {
+        format!("fill:{:02x}:{}", m[0], m.len())
+    } else {
+        hex(m)
+    }
+}
+
+pub fn msg_unhex(s: &str) -> Option<Vec<u8>> {
+    if let Some(rest) = s.strip_prefix("fill:") {
+        let mut it = rest.split(':');
+        let b = u8::from_str_radix(it.next()?, 16).ok()?;
+        let n: usize = it.next()?.parse().ok()?;
+        if n > (1 << 27) {
+            return None;
+        }
+        return Some(vec![b; n]);
+    }
+    unhex(s)
+}
